@@ -488,7 +488,7 @@ def _ko_case(ctx, idx):
     refs = [(p['cls'], p['inst']) for p in objs]
     evidence, mode = srdocs.evidence_list(r, pool, refs)
     return {'idx': idx, 'pool': pool, 'objs': objs, 'refs': refs, 'evidence': evidence, 'mode': mode,
-            'description': ('selected' if r.random() < 0.5 else None)}
+            'description': ('selected' if r.random() < 0.5 else None), 'person': r.random() < 0.3, 'device': r.random() < 0.3}
 
 
 def _check_ko(ctx, c, reqs, pending):
@@ -508,8 +508,15 @@ def _check_ko(ctx, c, reqs, pending):
         reasons.append('several-studies')
 
     def build():
+        person = device = None
+        if c['person']:
+            person = hd.sr.ObserverContext(observer_type=codes.DCM.Person,
+                                           observer_identifying_attributes=hd.sr.PersonObserverIdentifyingAttributes(name='Doe^Jane'))
+        if c['device']:
+            device = hd.sr.ObserverContext(observer_type=codes.DCM.Device,
+                                           observer_identifying_attributes=hd.sr.DeviceObserverIdentifyingAttributes(uid='1.2.826.0.1.3680043.8.498.3'))
         content = hd.ko.KeyObjectSelection(document_title=codes.DCM.Manifest, referenced_objects=[p['ds'] for p in c['objs']],
-                                           description=c['description'])
+                                           description=c['description'], observer_person_context=person, observer_device_context=device)
         return content, hd.ko.KeyObjectSelectionDocument(
             evidence=c['evidence'], content=content, series_instance_uid='1.2.826.0.1.3680043.8.498.2', series_number=2,
             sop_instance_uid='1.2.826.0.1.3680043.8.498.2.1', instance_number=1, manufacturer='verif')
@@ -543,6 +550,21 @@ def _check_ko(ctx, c, reqs, pending):
     if got_refs != [tuple(x) for x in c['refs']]:
         ctx.fail(case, {'what': 'get_references() is not the selected objects in order', 'got': got_refs, 'want': c['refs']},
                  site='ko.references')
+    # filters of get_references over the selected objects (construction parameters)
+    for vt in ('IMAGE', 'COMPOSITE'):
+        want = [tuple(x) for x, p_ in zip(c['refs'], c['objs']) if ('IMAGE' if p_['image'] else 'COMPOSITE') == vt]
+        got = [(str(i.ReferencedSOPSequence[0].ReferencedSOPClassUID), str(i.ReferencedSOPSequence[0].ReferencedSOPInstanceUID))
+               for i in doc.content.get_references(value_type=vt)]
+        if got != want:
+            ctx.fail(case, {'what': f'get_references(value_type={vt}) is not the selected {vt} objects', 'got': got, 'want': want},
+                     site='ko.references')
+    cls0 = c['refs'][0][0]
+    got = [str(i.ReferencedSOPSequence[0].ReferencedSOPInstanceUID) for i in doc.content.get_references(sop_class_uid=cls0)]
+    if got != [i for cl, i in c['refs'] if cl == cls0]:
+        ctx.fail(case, 'get_references(sop_class_uid=...) is not the selected objects of that class', site='ko.references')
+    n_ctx = len(doc.content.get_observer_contexts())
+    if n_ctx != int(c['person']) + int(c['device']):
+        ctx.fail(case, f'{n_ctx} observer contexts reported, constructed with {int(c["person"]) + int(c["device"])}', site='ko.content')
     resolved = []
     for u in sorted(ref_uids):
         rr = _call(doc.resolve_reference, u)
